@@ -42,7 +42,9 @@ type Conn struct {
 	in, out     *half
 	localClosed bool
 	peer        *Conn
-	Faults      []int // environment answers offered at each Read/Write besides "ok" (cost: one fault each)
+	ReadFaults  []int // environment answers offered at each Read besides "ok" (cost: one fault each)
+	WriteFaults []int // same for Write
+	OnFault     func()
 	dead        error // once failed, every later operation fails the same way
 	ReadSizes   []int // if set, each Read is answered with a size chosen among these (first = default)
 	Ops         int
@@ -79,21 +81,24 @@ func (c *Conn) kill(err error) {
 	c.in.rdGone = true
 }
 
-func (c *Conn) envFault(op string) (int, bool) {
-	if len(c.Faults) == 0 || c.dead != nil {
+func (c *Conn) envFault(op string, faults []int) (int, bool) {
+	if len(faults) == 0 || c.dead != nil || c.localClosed {
 		return 0, false
 	}
-	a := mc.Choose(c.name+"."+op+".env", 1+len(c.Faults))
+	a := mc.Choose(c.name+"."+op+".env", 1+len(faults))
 	if a == 0 {
 		return 0, false
 	}
-	return c.Faults[a-1], true
+	if c.OnFault != nil {
+		c.OnFault()
+	}
+	return faults[a-1], true
 }
 
 func (c *Conn) Read(p []byte) (int, error) {
 	c.Ops++
 	short := false
-	if k, ok := c.envFault("Read"); ok {
+	if k, ok := c.envFault("Read", c.ReadFaults); ok {
 		if k == FShort {
 			short = true
 		} else {
@@ -130,7 +135,7 @@ func (c *Conn) Read(p []byte) (int, error) {
 func (c *Conn) Write(p []byte) (int, error) {
 	c.Ops++
 	short := false
-	if k, ok := c.envFault("Write"); ok {
+	if k, ok := c.envFault("Write", c.WriteFaults); ok {
 		if k == FShort {
 			short = true
 		} else {
@@ -260,4 +265,48 @@ func ReadFrame(r io.Reader) ([]byte, error) {
 		return nil, err
 	}
 	return append(hdr, body...), nil
+}
+
+// ---- frame-level access for scripted peers (one scheduling point per message instead of several) ----
+
+func frameLen(b []byte) int {
+	if len(b) < 8 {
+		return -1
+	}
+	l := int(b[4])<<24 | int(b[5])<<16 | int(b[6])<<8 | int(b[7])
+	l = 8 + (l+7)/8*8
+	if len(b) < l {
+		return -1
+	}
+	return l
+}
+
+// RecvFrame blocks until a whole TTLV item is buffered (one step) and returns it; io.EOF / error when the
+// stream ended first (a partial item counts as ended once the writer has closed).
+func (c *Conn) RecvFrame() ([]byte, error) {
+	if c.in.cap > 0 {
+		return ReadFrame(c) // a bounded pipe may never hold a whole item
+	}
+	mc.Block(c.name+".RecvFrame", func() bool {
+		return frameLen(c.in.buf) > 0 || c.in.closed || c.localClosed || c.dead != nil
+	})
+	mc.EvWrite(&c.in.o, "readframe", 0)
+	mc.EvRead(&c.st, "rd.closed?", 0)
+	if c.localClosed {
+		return nil, net.ErrClosed
+	}
+	if c.dead != nil {
+		return nil, c.dead
+	}
+	n := frameLen(c.in.buf)
+	if n < 0 {
+		if len(c.in.buf) > 0 {
+			c.in.buf = nil
+			return nil, io.ErrUnexpectedEOF
+		}
+		return nil, io.EOF
+	}
+	fr := append([]byte{}, c.in.buf[:n]...)
+	c.in.buf = c.in.buf[n:]
+	return fr, nil
 }
